@@ -5,6 +5,7 @@ import Proofs.C12Vint
 import Proofs.C12Nest
 import Proofs.C12Decode
 import Proofs.C12Hist
+import Proofs.C12VintDec
 import Model.MarshalInterp
 /-!
 # C12 — encoded values are the CQL specification's encoding, byte for byte; conformant encodings decode
@@ -654,6 +655,50 @@ example : specDec 4 .decimal [0, 0, 0, 2, 128] = some (.decimal (-128) 2) := by
   have h1 : tcDec [128] = -128 := by decide
   have h2 : tcDec [0, 0, 0, 2] = 2 := by decide
   simp [specDec, minimalTC, h1, h2]
+
+theorem toS32_id (x : Int) (h : fitsS 4 x = true) : toS 32 x = x := by
+  simp [fitsS, leB_iff, ltB_iff] at h
+  simp [toS]; omega
+
+/-- duration, converse direction — closes the chain source text → model → specification for duration: marshal.go's
+    decVint (generated code = `Marshal.decVint`: GenTie.C12.decVint) reads, for EVERY byte string, exactly what the
+    specification's vint reader reads (first byte's leading one bits = number of extra bytes, big-endian payload,
+    zig-zag); hence every specification-conformant duration decodes into a gocql.Duration to the value the
+    specification decoder reads.  (Encode direction: C12_vint, C12_duration_conforms, GenTie.C12.encVint.) -/
+theorem C12_duration_decode_conforms (p : Nat) (isNil : Bool) :
+    (∀ data : Bytes, decVint data = specReadVint data) ∧
+    (∀ (b : Bytes) (m d n : Int), specDec p .duration b = some (.duration m d n) →
+      unmarshalScalar .duration isNil b .cqldur = .ok (.cqldur m d n)) := by
+  refine ⟨C12VintDec.decVint_spec, fun b m d n h => ?_⟩
+  have e : unmarshalScalar .duration isNil b .cqldur =
+      (if b = [] then URes.ok (.cqldur 0 0 0) else
+        (match decVints b with
+         | some (m, dd, n) => URes.ok (.cqldur m dd n)
+         | none => URes.err)) := rfl
+  cases h1 : specReadVint b with
+  | none => simp [specDec, h1] at h
+  | some x1 =>
+    obtain ⟨m', r1⟩ := x1
+    cases h2 : specReadVint r1 with
+    | none => simp [specDec, h1, h2] at h
+    | some x2 =>
+      obtain ⟨d', r2⟩ := x2
+      cases h3 : specReadVint r2 with
+      | none => simp [specDec, h1, h2, h3] at h
+      | some x3 =>
+        obtain ⟨n', r3⟩ := x3
+        simp [specDec, h1, h2, h3] at h
+        obtain ⟨⟨_, hm, hd, _⟩, rfl, rfl, rfl⟩ := h
+        have hne : b ≠ [] := by
+          intro hb; subst hb; simp [specReadVint, specReadUVint] at h1
+        have hv : decVints b = some (m', d', n') := by
+          simp [decVints, C12VintDec.decVint_spec, h1, h2, h3, toS32_id _ hm, toS32_id _ hd]
+        rw [e, if_neg hne, hv]
+
+/-- non-vacuity: the one-byte vint 02 is 1, the two-byte vint 80 81 is −65, rest untouched -/
+example : decVint [2, 7] = some (1, [7]) ∧ decVint [0x80, 0x81, 9] = some (-65, [9]) := by
+  rw [(C12_duration_decode_conforms 4 false).1, (C12_duration_decode_conforms 4 false).1]
+  decide
 
 /-! ## histories inside one process: the same Go type marshalled for several type descriptions -/
 
